@@ -144,3 +144,60 @@ impl RngCore for KnownRng {
 }
 
 impl CryptoRng for KnownRng {}
+
+// ---- equivalent entry points ---------------------------------------------------------------
+// `from_signatures` and `TryFrom<&[Signature]>` are two doors to the same accumulation; both are
+// called wherever a monitor accumulates, a disagreement is recorded here and turned into a
+// violation by `flush_entry_point_disagreements` at the end of the monitor's run. The returned
+// value is the PERMISSIVE one (Ok if either door accepts), so that refusal tests see an
+// acceptance through either door.
+thread_local! {
+    static ENTRY_DISAGREE: std::cell::RefCell<Vec<(String, serde_json::Value)>> = std::cell::RefCell::new(Vec::new());
+}
+
+fn note_disagreement(what: &str, detail: serde_json::Value) {
+    ENTRY_DISAGREE.with(|v| v.borrow_mut().push((what.to_string(), detail)));
+}
+
+pub fn flush_entry_point_disagreements(ctx: &mut crate::Ctx, prop: &str) {
+    let items: Vec<_> = ENTRY_DISAGREE.with(|v| v.borrow_mut().drain(..).collect());
+    for (what, d) in items {
+        ctx.violation(&format!("{prop}/entry-points-disagree/{what}"), d);
+    }
+}
+
+pub fn multi_from<C: Suite>(sigs: &[Signature<C>]) -> BlsResult<MultiSignature<C>> {
+    let a = MultiSignature::<C>::from_signatures(sigs);
+    let b = <MultiSignature<C> as TryFrom<&[Signature<C>]>>::try_from(sigs);
+    let same = match (&a, &b) {
+        (Ok(x), Ok(y)) => enc_pt(x.as_raw_value()) == enc_pt(y.as_raw_value()) && multi_scheme(x) == multi_scheme(y),
+        (Err(_), Err(_)) => true,
+        _ => false,
+    };
+    if !same {
+        note_disagreement(
+            &format!("MultiSignature::from_signatures-vs-TryFrom<&[Signature]>/{}", C::NAME),
+            serde_json::json!({"n":sigs.len(),"from_signatures_ok":a.is_ok(),"try_from_ok":b.is_ok(),
+                "signatures":sigs.iter().take(4).map(|s| hex::encode(Vec::from(s))).collect::<Vec<_>>()}),
+        );
+    }
+    if a.is_ok() { a } else { b }
+}
+
+pub fn agg_from<C: Suite>(sigs: &[Signature<C>]) -> BlsResult<AggregateSignature<C>> {
+    let a = AggregateSignature::<C>::from_signatures(sigs);
+    let b = <AggregateSignature<C> as TryFrom<&[Signature<C>]>>::try_from(sigs);
+    let same = match (&a, &b) {
+        (Ok(x), Ok(y)) => enc_pt(&agg_pt(x)) == enc_pt(&agg_pt(y)) && agg_scheme(x) == agg_scheme(y),
+        (Err(_), Err(_)) => true,
+        _ => false,
+    };
+    if !same {
+        note_disagreement(
+            &format!("AggregateSignature::from_signatures-vs-TryFrom<&[Signature]>/{}", C::NAME),
+            serde_json::json!({"n":sigs.len(),"from_signatures_ok":a.is_ok(),"try_from_ok":b.is_ok(),
+                "signatures":sigs.iter().take(4).map(|s| hex::encode(Vec::from(s))).collect::<Vec<_>>()}),
+        );
+    }
+    if a.is_ok() { a } else { b }
+}
